@@ -70,7 +70,8 @@ def select(branches: list[Branch], **want) -> Branch:
     hits = []
     for b in branches:
         d = dict(b.conds)
-        if all(d.get(k) == v for k, v in want.items()):
+        # a path that does not test a condition is the path for both of its values
+        if all(d.get(k, v) == v for k, v in want.items()):
             hits.append(b)
     if len(hits) != 1:
         raise AnalysisError(f"expected one branch for {want}, found {len(hits)}: {[b.conds for b in branches]}")
